@@ -147,3 +147,49 @@ Proof.
       * destruct H as [<-|[<-|[]]]; eauto.
       * destruct H as [<-|[]]; auto.
 Qed.
+
+(* ---- several roots (ExtendedCopyGraph: c_root :: c_xroots, one shared walk) ---- *)
+Lemma step_ret_true_xroots g c st e st' : step g c st e = Some st' -> returned st = None ->
+  returned st' = Some true -> forall r, In r (c_xroots c) -> ph st' r = Done.
+Proof.
+  intros H Hn Hr r Hin. unfold step in H. rewrite Hn in H.
+  destruct e; try (repeat match type of H with
+    | context [match ?x with _ => _ end] => destruct x; try discriminate H end;
+    injection H as <-; simpl in Hr; congruence).
+  destruct ok.
+  - destruct (is_done (ph st (c_root c)) && forallb (fun n => is_idle_or_done (ph st n)) (seq 0 (g_n g)) &&
+              forallb (fun r => is_done (ph st r)) (c_xroots c)) eqn:G; [|discriminate].
+    injection H as <-. simpl.
+    apply andb_true_iff in G as [_ G]. rewrite forallb_forall in G. specialize (G r Hin).
+    destruct (ph st r); simpl in G; congruence.
+  - destruct (existsb (fun n => is_dead (ph st n)) (seq 0 (g_n g))); [|discriminate].
+    injection H as <-. simpl in Hr. discriminate.
+Qed.
+
+Lemma run_ret_true_xroots g c tr : forall st st', run g c st tr = Some st' ->
+  returned st = None -> returned st' = Some true -> forall r, In r (c_xroots c) -> ph st' r = Done.
+Proof.
+  induction tr as [|e tr IH]; simpl; intros st st' H Hn Hr.
+  - injection H as <-. congruence.
+  - destruct (step g c st e) as [s1|] eqn:E; [|discriminate].
+    destruct (returned s1) as [b|] eqn:R1.
+    + destruct tr as [|e' tr']; simpl in H.
+      * injection H as <-. eapply step_ret_true_xroots; eauto.
+      * rewrite (step_after_ret g c s1 e' b R1) in H. discriminate.
+    + eapply IH; eauto.
+Qed.
+
+(* success of a walk from several roots: the graph of EVERY root is in the destination *)
+Lemma closure_all_roots g c d0 tr st :
+  closed_nodes g d0 -> mt_consistent g ->
+  accepts g c d0 tr = Some st -> returned st = Some true ->
+  forall r n, In r (c_root c :: c_xroots c) -> reach g r n -> has g (dst st) n = true.
+Proof.
+  intros Hc Hm Ha Hr r n [<-|Hin] Hn.
+  - exact (closure_lemma g c d0 tr st Hc Hm Ha Hr n Hn).
+  - unfold accepts in Ha.
+    pose proof (run_inv g c d0 tr _ _ (init_inv g c d0) Ha) as I.
+    pose proof (run_ret_true_xroots g c tr _ _ Ha eq_refl Hr r Hin) as Hd.
+    eapply reach_closed; eauto using (i_closed g c d0 st I Hc).
+    apply (i_present g c d0 st I). now rewrite Hd.
+Qed.
